@@ -637,7 +637,27 @@ pub fn tlv_streams(tier: Tier, unit: u64) -> Vec<StreamSpec> {
         stream("tlv-sized", tier.n(20, 1 * u, 50 * u)),
         stream("tlv-rand", tier.n(100, 10 * u, 1500 * u)),
         stream("tlv-flood", tier.n(10, u / 50, 20 * u)),
+        exhaustive("tlv-types", if tier == Tier::Miri { 64 } else { 256 * 3 }),
+        if tier == Tier::Miri { stream("tlv-lens-s", 20) } else { exhaustive("tlv-lens", len_ladder().len() as u64 * 4) },
     ]
+}
+
+/// Value lengths of the dense ladder: every length up to 1100, then 2^k-1, 2^k, 2^k+1 and a few
+/// decimal round numbers up to 65535.
+pub fn len_ladder() -> Vec<usize> {
+    let mut v: Vec<usize> = (0..=1100).collect();
+    for k in 11..=16u32 {
+        for d in [-2i64, -1, 0, 1, 2] {
+            let x = (1i64 << k) + d;
+            if x > 1100 && x <= 65535 {
+                v.push(x as usize);
+            }
+        }
+    }
+    v.extend([1500, 4000, 9999, 10000, 16383 * 3, 30000, 50000, 60000, 65000, 65519, 65520, 65532]);
+    v.sort();
+    v.dedup();
+    v
 }
 
 pub const TLV_SIZED: [usize; 8] = [0, 1, 2, 255, 256, 257, 65534, 65535];
@@ -679,6 +699,46 @@ pub fn tlv_case(stream_name: &str, idx: u64, seed: u64) -> Vec<u8> {
             let head = (start + 64).min(s.len());
             rng.fill(&mut s[start..head]);
             match (idx / TLV_SIZED.len() as u64) % 4 {
+                0 => {}
+                1 => {
+                    s.pop();
+                }
+                2 => s.push(rng.u8()),
+                _ => s.extend_from_slice(&[rng.u8(), 0, 0]),
+            }
+            s
+        }
+        "tlv-types" => {
+            // every type byte: empty value, one byte, five bytes after another item
+            let t = (idx % 256) as u8;
+            match idx / 256 {
+                0 => vec![t, 0, 0],
+                1 => vec![t, 0, 1, rng.u8()],
+                _ => {
+                    let mut s = vec![rng.u8(), 0, 2, rng.u8(), rng.u8(), t, 0, 5];
+                    s.extend(rng.bytes(5));
+                    s
+                }
+            }
+        }
+        "tlv-lens" | "tlv-lens-s" => {
+            // every value length of the dense ladder: exact fit, one byte short, one / three extra
+            let ladder = len_ladder();
+            let i = if stream_name == "tlv-lens" { idx } else { rng.below(1200 * 4) };
+            let l = ladder[(i / 4) as usize % ladder.len()];
+            let mut s = if rng.chance(1, 4) { wellformed_section(rng, 20) } else { Vec::new() };
+            s.push(rng.u8());
+            s.extend_from_slice(&(l as u16).to_be_bytes());
+            let start = s.len();
+            s.resize(start + l, 0);
+            let head = (start + 300).min(s.len());
+            rng.fill(&mut s[start..head]);
+            if let Some(b) = s.last_mut() {
+                if l > 0 {
+                    *b = 0xA0 | (l as u8 & 0x0F);
+                }
+            }
+            match i % 4 {
                 0 => {}
                 1 => {
                     s.pop();
